@@ -29,7 +29,7 @@ def register(reg):
 
 def register_loads(reg):
     C = reg.contract
-    KS = "'Config._Config__keyfile', 'KeyFile._KeyFile__key', 'KeyFile._KeyFile__refcount'"
+    KS = "'Config._Config__keyfile', 'Config._Config__default_keyfile', 'KeyFile._KeyFile__key', 'KeyFile._KeyFile__refcount'"
     LINKS = "'Config._parent', 'Config._key', 'Config._container'"
     # ghost counters: nparse counts ConfigFormat.loads calls, nload counts load_tree calls
     reg.contracts["core:ConfigFormat.loads"].modifies += ["nparse"]
@@ -54,7 +54,7 @@ def register_loads(reg):
     C("core:Config.loads", params={"content": "str|bytes", "format": "str", "kwargs": "ref:dict"},
       assumes={"A.acyclic": "True"},
       modifies=["dict:self._data", "set:self._default_value_keys", "dict:self._fields", "fs", "rand_ctr", "fresh", "ncalls", "nparse", "nload",
-                "Config._Config__keyfile@*", "KeyFile._KeyFile__key@*", "KeyFile._KeyFile__refcount@*", "Config._parent@*", "Config._key@*", "Config._container@*"],
+                "Config._Config__keyfile@*", "Config._Config__default_keyfile@*", "KeyFile._KeyFile__key@*", "KeyFile._KeyFile__refcount@*", "Config._parent@*", "Config._key@*", "Config._container@*"],
       ensures={
           "C18.includes-are-parsed-by-a-formatter-configured-like-the-document's": "pf_name(loc_format_factory) == format and pf_kwargs(loc_format_factory) is kwargs",
           "C18.loads-is-one-tree-load-after-include-processing": "glob('nload') == old(glob('nload')) + 1",
